@@ -186,6 +186,30 @@ where
     T: TryInto<Timestamp, Error = E>,
     E: std::fmt::Debug,
 {
+    if setter == "sg" {
+        // `Package::sign_with_timestamp(signer, t)`: the same `t.try_into().unwrap()` on a built package; the signer
+        // answers with a well-formed (RSA-algorithm) signature packet, so everything after the conversion succeeds
+        #[derive(Debug)]
+        struct FixedSigner;
+        impl rpm::signature::Signing for FixedSigner {
+            type Signature = Vec<u8>;
+            fn sign(&self, _data: impl std::io::Read, _t: Timestamp) -> Result<Vec<u8>, Error> {
+                Ok(crate::c10::crafted_sig_packet(1))
+            }
+            fn algorithm(&self) -> rpm::signature::AlgorithmType {
+                rpm::signature::AlgorithmType::RSA
+            }
+        }
+        let mut pkg = match builder().compression(CompressionType::None).build() {
+            Ok(p) => p,
+            Err(_) => return "err:build".into(),
+        };
+        return match guarded(AssertUnwindSafe(move || pkg.sign_with_timestamp(FixedSigner, t))) {
+            Err(_) => "panic".into(),
+            Ok(Err(_)) => "err".into(),
+            Ok(Ok(())) => "ok".into(),
+        };
+    }
     let b = builder().compression(CompressionType::None);
     let set = guarded(AssertUnwindSafe(move || match setter {
         "sd" => b.source_date(t),
@@ -222,9 +246,9 @@ fn system_time(secs: i64, nanos: u32) -> Option<SystemTime> {
     }
 }
 
-/// `tsset <sd|cl> <u32|sys|utc|fix> secs nanos`
+/// `tsset <sd|cl|sg> <u32|sys|utc|fix> secs nanos` (sg = `Package::sign_with_timestamp`: the same unwrap, on a package)
 fn tsset(setter: &str, kind: &str, secs: i64, nanos: u32) -> Option<String> {
-    if nanos >= 1_000_000_000 || (setter != "sd" && setter != "cl") {
+    if nanos >= 1_000_000_000 || (setter != "sd" && setter != "cl" && setter != "sg") {
         return None;
     }
     let un = || Some("unrepresentable".to_string());
@@ -526,8 +550,10 @@ pub fn gen(ctx: &mut Ctx) {
         let d = ctx.rng.range(-(1i64 << k), 1i64 << k);
         instants.push((c + d, if ctx.rng.chance(1, 2) { 0 } else { ctx.rng.below(1_000_000_000) as u32 }));
     }
-    for (s, n) in instants {
-        for setter in ["sd", "cl"] {
+    let fixed_instants = 32usize;
+    for (i, (s, n)) in instants.into_iter().enumerate() {
+        // `sg` (sign_with_timestamp on a built package) is the same conversion + unwrap: the hand-picked instants only
+        for setter in if i < fixed_instants || i % 16 == 0 { &["sd", "cl", "sg"][..] } else { &["sd", "cl"][..] } {
             for kind in ["u32", "sys", "utc", "fix"] {
                 if kind == "u32" && n != 0 {
                     continue;
